@@ -42,7 +42,7 @@ HERE = os.path.dirname(os.path.abspath(__file__))
 DEFAULT_DRIVER = os.path.join(HERE, ".lake", "build", "bin", "driver")
 
 RULE = (
-    "one-operation documents: operationId from a pool (rarely ''), 0-2 path-level and 0-3 operation-level parameters "
+    "one-operation documents: operationId from a pool (rarely '' = a derived id), 0-2 path-level and 0-3 operation-level parameters "
     "(inline with str / odd / missing names, `in`, `required` of several truthinesses, schemas from a pool with inline "
     "objects, compositions, `$ref`, string-enum arrays with list / str / wrong-typed enums, empty and non-mapping schemas; "
     "`$ref` to components.parameters entries that are nodes, falsy, non-mappings or missing; non-mapping nodes), an optional "
@@ -333,9 +333,19 @@ def _real(case: dict) -> dict:
     return {"oracle": rows, "oracle_conflict": conflict, "result": res, "op": op}
 
 
+def _effective_op_id(case: dict) -> str:
+    """The id `parse_operations` hands to the parameter / request-body / response parsers (operations/parser.py:83-91, default
+    strategy): the declared operationId, or - when it is absent or EMPTY (F44 repaired) - the id derived from method and path
+    (`Pog.Ops.chooseOpId`; the document of `_doc_of` has the single path `/x`)."""
+    if case["opId"]:
+        return case["opId"]
+    from pyopenapi_gen.core.utils import NameSanitizer
+    return NameSanitizer.sanitize_method_name(f"{case.get('method', 'get').upper()}_/x".strip("/"))
+
+
 def _request(case: dict, oracle_rows: list) -> dict:
     return {"f": "loaderParseOp",
-            "a": [case["opId"], enc(case["pathParams"]), enc(case["params"]), enc(case["rb"]),
+            "a": [_effective_op_id(case), enc(case["pathParams"]), enc(case["params"]), enc(case["rb"]),
                   [[k, enc(v)] for k, v in case["responses"]],
                   {t: [[k, enc(v)] for k, v in case["comps"][t]] for t in ("parameters", "responses", "requestBodies")},
                   oracle_rows]}
